@@ -54,6 +54,8 @@ def objective(kind, n, nan=None):
         o = {"kind": "quad", "a": _A[:n], "c": _C[:n]}
     elif kind == "quad_far":  # minimiser outside the usual boxes
         o = {"kind": "quad", "a": _A[:n], "c": [4.0, -3.0, 5.0, 4.0, -4.0][:n]}
+    elif kind == "noisy":
+        o = {"kind": "noisy", "a": _A[:n], "c": _C[:n]}
     elif kind == "lin":
         o = {"kind": "lin", "g": _G[:n]}
     elif kind == "abs":
